@@ -16,6 +16,12 @@ from .core import Capture, describe_exc, scrub
 from .stepclock import StepBudgetExceeded, run_clocked
 
 
+# Every execution runs under the step clock; unless a property sets its own budget a run is cut
+# off (outcome kind "timeout", deterministic) after this many steps instead of waiting for the
+# wall-clock safety net.  Legitimate runs of the generated workloads need < 10^5 steps.
+DEFAULT_BUDGET = 20_000_000
+
+
 class WriterFault(Exception):
     """Raised by the user-supplied Writer on its k-th block (fault kind D5)."""
 
@@ -166,7 +172,7 @@ def run_exec(root: str, spec: dict[str, Any], roles: dict[str, str], knobs: dict
         except Exception:  # noqa: BLE001
             pass
     with cap, env:
-        value, exc, steps, timed_out = run_clocked(call, spec.get("budget"))
+        value, exc, steps, timed_out = run_clocked(call, spec.get("budget", DEFAULT_BUDGET))
     sys.argv = saved_argv
 
     out: dict[str, Any] = {"entry": entry, "steps": steps, "max_loop_span": guard["max_span"]}
